@@ -18,6 +18,8 @@ pub struct Regex {
 
 impl Regex {
     fn new(re: &str, flags: &str, language: Language) -> Result<Self, Error> {
+        #[cfg(feature = "verif-hooks")]
+        crate::verif::step(crate::verif::site::API_NEW);
         let re_flags = ReFlags::new(flags, language)?;
         let pattern = re.chars().collect();
         let re_compiler = ReCompiler::new(pattern, re_flags);
@@ -43,6 +45,8 @@ impl Regex {
 
     /// Returns `true` if the argument matches this regular expression.
     pub fn is_match(&self, haystack: &str) -> bool {
+        #[cfg(feature = "verif-hooks")]
+        crate::verif::step(crate::verif::site::API_IS_MATCH);
         let mut matcher = self.matcher(haystack);
         matcher.is_match()
     }
@@ -60,6 +64,8 @@ impl Regex {
     /// Returns a string with all pieces matching this regular expression replaced
     /// by the replacement.
     pub fn replace_all(&self, haystack: &str, replacement: &str) -> Result<String, Error> {
+        #[cfg(feature = "verif-hooks")]
+        crate::verif::step(crate::verif::site::API_REPLACE_ALL);
         self.check_matches_empty_string()?;
 
         let mut matcher = self.matcher(haystack);
@@ -71,6 +77,8 @@ impl Regex {
 
     /// Returns an iterator of the input string tokenized by the regular expression.
     pub fn tokenize<'a>(&'a self, haystack: &str) -> Result<TokenIter<'a>, Error> {
+        #[cfg(feature = "verif-hooks")]
+        crate::verif::step(crate::verif::site::API_TOKENIZE);
         // if we input the empty string, we should return no tokens
         if haystack.is_empty() {
             return Ok(TokenIter {
@@ -99,6 +107,8 @@ impl Regex {
     /// vector provides both the matching and non-matching substrings. It also
     /// provides access to matched subgroups.
     pub fn analyze<'a>(&'a self, haystack: &str) -> Result<AnalyzeIter<'a>, Error> {
+        #[cfg(feature = "verif-hooks")]
+        crate::verif::step(crate::verif::site::API_ANALYZE);
         self.check_matches_empty_string()?;
         Ok(AnalyzeIter::new(
             &self.re_program.pattern,
@@ -122,6 +132,8 @@ impl Iterator for TokenIter<'_> {
     type Item = String;
 
     fn next(&mut self) -> Option<Self::Item> {
+        #[cfg(feature = "verif-hooks")]
+        crate::verif::step(crate::verif::site::TOKEN_NEXT);
         if let Some(prev_end) = self.prev_end {
             if self.matcher.matches(prev_end) {
                 let start = self.matcher.get_paren_start(0).unwrap();
